@@ -15,7 +15,7 @@ BOUND = ("invalid operands: 400 (x5 thorough) random 1-unit DAG specs with univa
          "smooth or not decomposable, and smooth+decomposable pairs over the same variables whose products split a scope differently (every 3rd spec is a random hierarchical-partition circuit over {2,5,11[,12]}); "
          "valid operands: 60 (x4) generated circuits (<= 3 variables, <= 3 units, arity <= 3, <= 2 outputs) for integrate (every non-empty "
          "subset Z) / conjugate / evidence, 24 (x4) polynomial circuits for differentiate (orders 1..2 and invalid orders 0, -1), "
-         "50 (x4) compatible pairs + squares for multiply")
+         "50 (x4) compatible pairs + squares for multiply; pairs whose product layers (arity 2-3, Hadamard / Kronecker, 1-2 units) list their inputs in every permuted order")
 RULE = "one case = (operand index, operator, argument, clause); distinct by that tuple"
 
 
@@ -148,4 +148,30 @@ def run(tier, seed):
                         and are_compatible(p, c1) and are_compatible(p, c2) and are_compatible(c1, p),
                         f"product not structured-decomposable / not compatible with its operands: splits {sp}")
         ck.guarded("multiply_result", case, gom)
+    # compatible operands whose product layers list their inputs in DIFFERENT orders (every permutation of arity 2 and 3, Hadamard and Kronecker):
+    # multiply must refuse or return a smooth and decomposable product
+    from cirkit.symbolic.circuit import Circuit as _Circuit
+    from cirkit.symbolic import layers as _L
+    from cirkit.utils.scope import Scope as _Scope
+    for arity, prod, K in [(a, pk, k) for a in (2, 3) for pk in (_L.HadamardLayer, _L.KroneckerLayer) for k in (1, 2)]:
+        vs = [2, 5, 11][:arity]
+        for perm in itertools.permutations(range(arity)):
+            case = {"permuted_product_inputs": list(perm), "arity": arity, "product": prod.__name__, "units": K}
+
+            def build(order):
+                ins = [_L.CategoricalLayer(_Scope([vs[j]]), K, num_categories=2) for j in order]
+                h = prod(K, arity=arity)
+                s_ = _L.SumLayer(h.num_output_units, 1, arity=1)
+                return _Circuit(ins + [h, s_], {h: ins, s_: [h]}, [s_])
+
+            def gop():
+                c1, c2 = build(range(arity)), build(perm)
+                try:
+                    p = SF.multiply(c1, c2)
+                except Exception as e:  # a refusal is allowed by the property
+                    ck.res.count(f"multiply of permuted inputs refused ({type(e).__name__})")
+                    return
+                s, dd, sp = circ_flags(p)
+                ck.true("multiply_permuted_result_smooth_dec", case, s and dd and p.is_smooth and p.is_decomposable, f"smooth={s} dec={dd}")
+            ck.guarded("multiply_permuted", case, gop)
     return ck.res
